@@ -14,7 +14,7 @@ Obs == ndJsonDeserialize(IOEnv.OBS)
 
 VARIABLES l, mon, out, dead
 
-Fresh == [m21 |-> MP!M21Init, m22 |-> MP!M22Init, m26 |-> MP!M26Init, m27 |-> MP!M27Init, m40 |-> MP!M40Init]
+Fresh == [m21 |-> MP!M21Init, m22 |-> MP!M22Init, m24 |-> MP!M24Init, m26 |-> MP!M26Init, m27 |-> MP!M27Init, m40 |-> MP!M40Init]
 
 TInit == l = 1 /\ mon = Fresh /\ out = <<>> /\ dead = {}
 
@@ -29,15 +29,16 @@ TNext ==
             dd == IF e.i = 1 THEN {} ELSE dead
             r21 == IF "C21" \in Mons THEN MP!Mon21Step(g.m21, e) ELSE [g |-> g.m21, viol |-> {}]
             r22 == IF "C22" \in Mons THEN MP!Mon22Step(g.m22, e) ELSE [g |-> g.m22, viol |-> {}]
+            r24 == IF "C24" \in Mons THEN MP!Mon24Step(g.m24, e) ELSE [g |-> g.m24, viol |-> {}]
             r26 == IF "C26" \in Mons THEN MP!Mon26Step(g.m26, e) ELSE [g |-> g.m26, viol |-> {}]
             r27 == IF "C27" \in Mons THEN MP!Mon27Step(g.m27, e) ELSE [g |-> g.m27, viol |-> {}]
             r40 == IF "C40" \in Mons THEN MP!Mon40Step(g.m40, e) ELSE [g |-> g.m40, viol |-> {}]
-        IN /\ mon' = [m21 |-> r21.g, m22 |-> r22.g, m26 |-> r26.g, m27 |-> r27.g, m40 |-> r40.g]
-           /\ out' = out \o Verdicts(e, "C21", r21.viol, dd) \o Verdicts(e, "C22", r22.viol, dd)
+        IN /\ mon' = [m21 |-> r21.g, m22 |-> r22.g, m24 |-> r24.g, m26 |-> r26.g, m27 |-> r27.g, m40 |-> r40.g]
+           /\ out' = out \o Verdicts(e, "C21", r21.viol, dd) \o Verdicts(e, "C22", r22.viol, dd) \o Verdicts(e, "C24", r24.viol, dd)
                          \o Verdicts(e, "C26", r26.viol, dd) \o Verdicts(e, "C27", r27.viol, dd)
                          \o Verdicts(e, "C40", r40.viol, dd)
            \* after the first violation of a property in a case the rest of the case is not judged for it
-           /\ dead' = dd \cup (IF r21.viol # {} THEN {"C21"} ELSE {}) \cup (IF r22.viol # {} THEN {"C22"} ELSE {})
+           /\ dead' = dd \cup (IF r21.viol # {} THEN {"C21"} ELSE {}) \cup (IF r22.viol # {} THEN {"C22"} ELSE {}) \cup (IF r24.viol # {} THEN {"C24"} ELSE {})
                          \cup (IF r26.viol # {} THEN {"C26"} ELSE {}) \cup (IF r27.viol # {} THEN {"C27"} ELSE {})
                          \cup (IF r40.viol # {} THEN {"C40"} ELSE {})
      /\ l' = l + 1
